@@ -1,13 +1,16 @@
 from drv_replication import ReceiverSuite, ClusterSuite
+from drv_node import NodeSuite
 
 
 class Prop:
     ID = 'C12'
     GEN = ['proc', 'enums', 'node']
-    MODEL_TARGETS = ['model/Replication.vo']
+    MODEL_TARGETS = ['model/Replication.vo', 'model/Node.vo', 'model/NodeSpec.vo']
     TARGETS = ['props/C12.vo']
     PROPS_FILE = 'props/C12.v'
-    SUITES = [ReceiverSuite(), ClusterSuite()]
+    SUITES = [ReceiverSuite(), ClusterSuite(),
+              # what triggers the reload of a peer's process table: loss / stealth-restart detection and re-handshake
+              NodeSuite(evals={'mismatches': 'mismatches'}, quick=(500, 60), thorough=(3000, 150))]
     RULE = ('receiver: random process-plane message histories (ALL_INFO, PROCESS, forced PROCESS, PROCESS_ADDED/'
             'REMOVED/DISABILITY, TICK, AUTHORIZATION, INSTANCE_FAILURE, invalidate_failed, activate_checked) from '
             '2-5 active instances (plus a silent and an unknown one) about 1-6 processes, 3 of 4 mostly-valid and '
@@ -16,7 +19,8 @@ class Prop:
             'cluster: random schedules (process changes, deliveries, drops, ticks, check_instance, notifications, '
             'activation, failures, invalidations) over 2-4 real nodes with 1-4 processes, 2 of 3 avoiding handshake '
             'windows and 1 of 3 unconstrained; non-trivial = at least two admitted views, processes loaded, at '
-            'least one process change delivered; distinct by final observation and length')
+            'least one process change delivered; distinct by final observation and length. node suite: control-plane '
+            'histories of one real instance (loss and stealth-restart detection, re-handshake), model = implementation')
     ASSUMPTIONS = ['time.monotonic is the harness logical clock (one clock for all nodes of a case)',
                    'publications i->j are FIFO (one proxy thread per peer, synchronous XML-RPC); notifications of a '
                    'node are FIFO (one local proxy thread); no order between the two',
